@@ -20,6 +20,7 @@ import time
 from .. import common as C
 from .. import capyrun as R
 from .. import c20_gen as G
+from .. import pipe as P
 
 RULE = ("program = 3..12 globals of the kinds alias / distinct / comptime type / struct / enum / const / comptime global / fn / recursive pair / generic (comptime T, "
         "comptime n, identity) / type-returning generic + instantiation / fn alias, each referring to earlier ones with high probability, + main using every "
@@ -32,7 +33,8 @@ ASSUME = ["the README does not restrict the order of global definitions, nor whi
           "layout of an accepted program must be accepted",
           "the python reference assumes left-to-right evaluation of call arguments and operands (only observable through the event order of printing functions), "
           "64-bit wrapping-free arithmetic (all values < 2^60, `%` only on non-negative values), value-preserving casts (all cast values < 251 or < 1009 in "
-          ">= 16-bit types); the tag byte of a payload-less enum is compared with the reference only for explicit discriminants",
+          ">= 16-bit types); enums whose payloads are all integers (or absent) are also printed up to their tag byte (README: a u8 that comes after the payload; offset = largest payload size): only that "
+          "last byte is compared, with the reference only when the discriminant is explicit",
           "every file that prints declares the extern printers itself (the same extern may be declared in several files)"]
 
 EXTERNAL_SIGNALS = (2, 9, 15)
@@ -203,7 +205,12 @@ class Obs:
         return None
 
     def behaviour(self):
-        return (self.r.out, self.r.rc, self.r.sig)
+        return (norm(self.r.out), self.r.rc, self.r.sig)
+
+
+def norm(out):
+    """`X id bytes` lines print an enum value up to its tag byte: only the tag (last byte) is defined data, the rest may be padding"""
+    return "\n".join((" ".join(l.split(" ")[:2] + [l.split(" ")[2][-2:]]) if l.startswith("X ") and l.count(" ") == 2 else l) for l in out.split("\n"))
 
 
 def diag_shape(c):
@@ -227,7 +234,7 @@ def first_diff(a, b):
 
 def compare_reference(p_log, p_rc, o):
     """canonical run against the python reference -> None or a description"""
-    got = [(t, i, v.strip()) for t, i, v in R.parse_log(o.r.out)]
+    got = [(t, i, v.strip()) for t, i, v in R.parse_log(norm(o.r.out))]
     if len(got) != len(p_log):
         return f"{len(got)} events printed, the reference evaluation prints {len(p_log)}"
     for g, e in zip(got, p_log):
@@ -248,29 +255,95 @@ def wit(canon, var, vdesc, extra=None):
     return w
 
 
-def judge_variant(canon, var, kind, facts):
+CT_LOCAL = re.compile(r"comptime \{ \w+ : ")
+ANY_LOCAL = re.compile(r"[\s{]\s*\w+ :=? ")
+UNRESOLVED = re.compile(r"has not yet been resolved|found !|found `!`")
+VALUE_KINDS = ("const", "comptime", "cttype", "tyinst", "fnalias")
+
+
+def triggers(p, v):
+    """structural features of a layout that are known to trip capy (see known_findings.json); they become part of a violation's sig so that a
+    registered finding cannot hide a failure of a layout that does not have the feature"""
+    where = {g: k for k, gs in v["files"].items() for g in gs}
+    out = []
+    # an alias of another global (`T :: X;`, `T :: m1.X;`) referred to from a file other than its own
+    for a in p.order:
+        if p.kind[a] == "alias" and p.deps(a) and any(a in p.deps(u) and where[u] != where[a] for u in p.order):
+            out.append("xfile_alias_of_global")
+            break
+    # code with a local (comptime block, function body) that reads, in another file, a comptime global whose block also has a local
+    ct_local = {g for g in p.order if p.kind[g] in ("const", "comptime") and CT_LOCAL.search(p.text[g])}
+    if any(d in ct_local and where[d] != where[g] for g in p.order if "{" in p.text[g] and ANY_LOCAL.search(p.text[g][p.text[g].index("{"):]) for d in p.deps(g)):
+        out.append("xfile_comptime_locals")
+    # a global that is not a function (comptime block, const, fn alias) and (transitively) refers to a recursive function
+    rec = {g for g in p.order if p.kind[g] == "recfn"}
+    if rec:
+        reach = {g: set(p.deps(g)) for g in p.order}
+        changed = True
+        while changed:
+            changed = False
+            for g in p.order:
+                new = set()
+                for d in reach[g]:
+                    new |= reach.get(d, set())
+                if not new <= reach[g]:
+                    reach[g] |= new
+                    changed = True
+        if any(p.kind[g] in VALUE_KINDS and reach[g] & rec for g in p.order):
+            out.append("value_global_reaches_recursive_fn")
+    return out
+
+
+def with_triggers(sig, trig, symptom=""):
+    t = [x for x in trig if x != "value_global_reaches_recursive_fn" or UNRESOLVED.search(symptom)]
+    return sig + ("|trigger=" + ",".join(t) if t else "")
+
+
+def judge_variant(canon, var, kind, facts, trig=()):
     """-> (verdict, violation | None, inconclusive text | None); canon is accepted and ran"""
     family = kind.split(":")[0]
-    desc = f"{kind} {facts}"
+    desc = f"{kind} {facts}" + (f" triggers={list(trig)}" if trig else "")
     if var.infra:
         return "inconc", None, f"{kind}: {var.infra}"
     c = var.c
     if c.internal_error:
-        return "viol", {"key": "internal_error", "sig": "internal_error|" + c.panic_sig(),
+        return "viol", {"key": "internal_error", "sig": with_triggers("internal_error|" + c.panic_sig(), trig),
                         "what": f"the canonical layout is accepted, layout {desc} ends in an internal compiler error: {c.brief()[:300]}",
                         "witness": wit(canon, var, desc)}, None
     if c.rejected:
-        return "viol", {"key": "variant_rejected", "sig": f"variant_rejected|{family}|{diag_shape(c)}",
+        return "viol", {"key": "variant_rejected", "sig": with_triggers(f"variant_rejected|{family}|{diag_shape(c)}", trig, " ".join(c.diag_kinds())),
                         "what": f"the canonical layout is accepted, layout {desc} is rejected: {c.diag_kinds()[:3]}", "witness": wit(canon, var, desc)}, None
     if var.behaviour() != canon.behaviour():
-        return "viol", {"key": "output_differs", "sig": f"output_differs|{family}",
+        return "viol", {"key": "output_differs", "sig": with_triggers(f"output_differs|{family}", trig),
                         "what": f"layout {desc} behaves differently from the canonical layout (exit {var.r.rc}/{var.r.sig} vs {canon.r.rc}/{canon.r.sig}; "
-                                f"{first_diff(canon.r.out, var.r.out)})", "witness": wit(canon, var, desc)}, None
+                                f"{first_diff(norm(canon.r.out), norm(var.r.out))})", "witness": wit(canon, var, desc)}, None
     return "ok", None, None
 
 
+def schedule_shape(d, entry):
+    """hook H2 (hir_ty::verif scheduling log, probe built with --cfg capy_verif): the sequence of scheduler events of one layout with every location replaced
+    by a count (the log names globals by interner keys, which depend on the layout). Different shapes = certainly different inference schedules."""
+    try:
+        _, rep = P.run_pipeline(d, main=entry)
+    except C.Inconclusive:
+        return None
+    if not rep or "sched" not in rep:
+        return None
+    shape = []
+    for e in rep["sched"]:
+        if e[0] == "round":
+            shape.append(("round", bool(e[1]), len(e[2]), e[3]))
+        elif e[0] == "deps":
+            shape.append(("deps", len(e[2])))
+        elif e[0] == "seed":
+            shape.append(("seed", len(e[1])))
+        else:
+            shape.append((e[0],))
+    return tuple(shape)
+
+
 def run_program(arg):
-    work, seed, idx = arg
+    work, seed, idx, probe = arg
     rng = C.Rng(seed, 20_000_000 + idx)
     p = G.generate(rng)
     variants = make_variants(p, rng)
@@ -326,7 +399,7 @@ def run_program(arg):
                             "what": f"the canonical layout does not behave like the reference evaluation of the program: {why}",
                             "witness": wit(canon, None, "canonical", {"expected_log": p.expected_log, "expected_rc": p.expected_rc})})
     for v, o, facts in obs:
-        verdict, viol, inc = judge_variant(canon, o, v["kind"], facts)
+        verdict, viol, inc = judge_variant(canon, o, v["kind"], facts, triggers(p, v))
         if verdict == "inconc":
             res["inconc"].append(f"program {idx}: {inc}")
             continue
@@ -338,6 +411,9 @@ def run_program(arg):
         res["accepted_variants"] += 1
         if facts["uses_before_def"] or facts["cross_file_refs"]:
             res["nontrivial"].append(v["kind"] + ("+cyclic" if facts["cyclic_imports"] else ""))
+    if probe:
+        shapes = [schedule_shape(os.path.join(base, "canon"), canon.entry)] + [schedule_shape(os.path.join(base, f"v{i}"), o.entry) for i, (v, o, _) in enumerate(obs)]
+        res["h2"] = (len([x for x in shapes if x is not None]), len({x for x in shapes if x is not None}))
     if idx < 3 and obs:
         v, o, facts = obs[-1 - idx]
         res["sample"] = {"program": idx, "globals": [f"{g}:{p.kind[g]}" for g in p.order], "layout": v["kind"], "facts": facts, "entry": o.entry,
@@ -348,13 +424,40 @@ def run_program(arg):
     return res
 
 
+def read_tree(d):
+    out = {}
+    for f in sorted(os.listdir(d)):
+        if f.endswith(".capy"):
+            out[f] = open(os.path.join(d, f), encoding="utf-8").read()
+    return out
+
+
+def run_pinned(arg):
+    """a minimal layout pair kept under kf/C20_*/ (canon/ and var/): the finding stays visible whatever the generator happens to produce"""
+    work, name = arg
+    d = os.path.join(C.VERIF, "kf", name)
+    case = json.load(open(os.path.join(d, "case.json")))
+    canon = Obs(os.path.join(work, "pinned_" + name, "canon"), read_tree(os.path.join(d, "canon")), case["canon_entry"])
+    var = Obs(os.path.join(work, "pinned_" + name, "var"), read_tree(os.path.join(d, "var")), case["var_entry"])
+    if canon.infra or not canon.c.accepted:
+        return name, "inconc", None, f"pinned case {name}: the canonical layout is not accepted / did not run: {canon.infra or canon.c.brief()[:200]}"
+    verdict, viol, inc = judge_variant(canon, var, case["kind"], {"pinned": name}, case.get("triggers", ()))
+    return name, verdict, viol, inc
+
+
 def run(tier, seed):
     t0 = time.time()
     C.build_cli()
     C.build_rt()
     work = C.fresh_dir("C20")
     nprog = 56 if tier == "quick" else 1500
-    results = C.pmap(run_program, [(work, seed, i) for i in range(nprog)])
+    nprobe = 6 if tier == "quick" else 60
+    try:
+        C.build_probe()
+    except C.Inconclusive as e:      # the hook is only used for an evidence counter
+        nprobe = 0
+        C.log(f"[C20] probe not available, scheduling log not counted: {str(e)[:200]}")
+    results = C.pmap(run_program, [(work, seed, i, i < nprobe) for i in range(nprog)])
     viol, inconc, samples, sigs = [], [], [], set()
     cnt = {"programs": nprog, "layouts_compiled": 0, "layouts_agreeing_with_canonical": 0, "canonical_matching_python_reference": 0, "events_per_run_total": 0,
            "uses_before_definition": 0, "cross_file_references": 0, "layouts_with_cyclic_imports": 0, "multi_file_layouts": 0}
@@ -378,10 +481,27 @@ def run(tier, seed):
             sigs.add((res["shape"], k))
         for k in res["shape"][0]:
             kinds_seen[k] = kinds_seen.get(k, 0) + 1
+        if res.get("h2"):
+            cnt["h2_layouts_with_scheduling_log"] = cnt.get("h2_layouts_with_scheduling_log", 0) + res["h2"][0]
+            cnt["h2_distinct_schedule_shapes_summed_over_programs"] = cnt.get("h2_distinct_schedule_shapes_summed_over_programs", 0) + res["h2"][1]
+            cnt["h2_programs_probed"] = cnt.get("h2_programs_probed", 0) + 1
         if res["sample"]:
             samples.append(res["sample"])
     for k, n in sorted(kinds_seen.items()):
         cnt["globals_of_kind_" + k] = n
+    notes = []
+    kf = os.path.join(C.VERIF, "kf")
+    pinned = sorted(n for n in os.listdir(kf) if n.startswith("C20_") and os.path.exists(os.path.join(kf, n, "case.json")))
+    for name, verdict, v, inc in C.pmap(run_pinned, [(work, n) for n in pinned]):
+        if verdict == "inconc":
+            inconc.append(inc)
+            continue
+        evals += 1
+        cnt["pinned_cases"] = cnt.get("pinned_cases", 0) + 1
+        if v:
+            viol.append(v)
+        else:
+            notes.append(f"pinned case kf/{name}: both layouts now behave alike")
     seen, uniq = set(), []
     for v in viol:
         s = v["key"] + "|" + v["sig"]
@@ -389,7 +509,7 @@ def run(tier, seed):
             seen.add(s)
             uniq.append(v)
     rep = {"evaluations": evals, "distinct_nontrivial": len(sigs), "violations": uniq, "samples": samples, "counters": cnt,
-           "notes": [f"{len(viol) - len(uniq)} further violations share a signature with a reported one"] if len(viol) > len(uniq) else [],
+           "notes": notes + ([f"{len(viol) - len(uniq)} further violations share a signature with a reported one"] if len(viol) > len(uniq) else []),
            "exhaustive": False, "dropped_violations": len(viol) - len(uniq)}
     return C.finish("C20", tier, seed, t0, "exploration", rep, ASSUME, RULE, min_evals=300 if tier == "quick" else 5000, inconclusive=inconc)
 
@@ -433,7 +553,7 @@ def replay(path):
         viol = {"key": "variant_rejected", "what": f"canonical accepted={canon.c.accepted}, variant accepted={var.c.accepted}: "
                                                     f"{(var.c if canon.c.accepted else canon.c).diag_kinds()[:3]}"}
     elif var is not None and canon.c.accepted and var.behaviour() != canon.behaviour():
-        viol = {"key": "output_differs", "what": first_diff(canon.r.out, var.r.out) + f" (exit {canon.r.rc} vs {var.r.rc})"}
+        viol = {"key": "output_differs", "what": first_diff(norm(canon.r.out), norm(var.r.out)) + f" (exit {canon.r.rc} vs {var.r.rc})"}
     shutil.rmtree(work, ignore_errors=True)
     if viol:
         print(f"VIOLATION property=C20 replay={path}")
